@@ -144,6 +144,11 @@ def iter_py_schemas(spec, acc, workdir, prefer_cpp_full=False):
     rng = random.Random(spec['seed'])
     if spec['kind'] == 'seq':
         sch, names, tagmap = S.seq_schema([tuple(x) for x in spec['seqs']], wrap=spec.get('wrap', False))
+        for d in adversarial_defs():
+            sch.add(d)
+            if d.kind in ('struct', 'union'):
+                names.append(d.name)
+                tagmap[d.name] = ['adversarial']
         todo = [(sch, names, tagmap)]
     elif spec['kind'] == 'rand':
         todo = []
@@ -180,3 +185,26 @@ def default_reaches_unsized_bytes(sch, tname, _depth=0):
         elif m.kind in (S.PLAIN, S.FIXED) and default_reaches_unsized_bytes(sch, m.type, _depth + 1):
             return True
     return False
+
+
+def adversarial_defs():
+    """Hand-built delicate structures (Python/raw only: arrays sharing a sizer). Added to every sequence schema.
+    Each one exists because a seeded change needed exactly this shape to manifest."""
+    M = S.Member
+    return [
+        # two arrays share the sizer n; a nested struct between them has a bound field of the same NAME (c)
+        S.Struct('AdvIn', [M('m', 'u8'), M('c', 'u8', S.EXT, sizer='m')]),
+        S.Struct('AdvOut', [M('n', 'u8'), M('a', 'u8', S.EXT, sizer='n'), M('inner', 'AdvIn'),
+                            M('c', 'u8', S.EXT, sizer='n')]),
+        # sizer declared after the first dynamic field, another dynamic field between sizer and array
+        S.Struct('AdvParts', [M('a', 'u8', S.DYNAMIC), M('n', 'u32'), M('m', 'u16'), M('b', 'u8', S.EXT, sizer='n'),
+                              M('c', 'u16', S.EXT, sizer='m')]),
+        # union with a non-zero first discriminator / enum with non-zero first enumerator inside limited arrays
+        S.Enum('AdvE', [('AdvE_5', 5), ('AdvE_9', 9)]),
+        S.Union('AdvU', [(7, 'AdvE', 'e'), (8, 'u16', 'h')]),
+        S.Struct('AdvElem', [M('e', 'AdvE'), M('u', 'AdvU')]),
+        S.Struct('AdvLim', [M('p', 'u8'), M('w', 'AdvElem', S.LIMITED, 3), M('x', 'AdvU', S.LIMITED, 2), M('q', 'u16')]),
+        # nested enums at depth >= 1 (rendering), optional enum, enum arrays
+        S.Struct('AdvDeep', [M('b', 'byte', S.DYNAMIC), M('el', 'AdvElem'), M('oe', 'AdvE', S.OPTIONAL),
+                             M('ea', 'AdvE', S.FIXED, 2), M('z', 'u8')]),
+    ]
